@@ -72,6 +72,9 @@ def run(chk):
     chk.explanation = ("Sensitivity transforms and props analyses evaluated by the checker's evaluator over the reference Circuit model with a reference brute-force SAT layer; results compared "
                        "with the definitions (flip n / flip a startpoint and compare by exhaustive simulation).")
     chk.assume("sat.solve / sat.model_count are replaced by reference brute-force functions here; the real encoder and counters are decided by C01/C08")
+    from ..structural import closure_discipline_rule
+
+    closure_discipline_rule(chk, repo, "C11.S.reflexive-closure", [(FILE, "sensitization_transform"), (FILE, "sensitivity_transform"), ("props.py", "influence"), ("props.py", "signal_probability")], {})
     P = Package(repo, overrides=overrides())
     fz = repo.func(FILE, "sensitization_transform")
     ft = repo.func(FILE, "sensitivity_transform")
